@@ -582,6 +582,10 @@ example : (trace (lzmaEnd exStrm) [exCall 0 1 1 0, exCall 3 1 1 0]).map (·.resu
     running the compiled function on a stub coder — equals the model's table (2716 cells, kernel evaluation). -/
 theorem control_table_bridge : Gen.C11.table = modelTable := by decide +kernel
 
+/-- Each sanity check and each of the nine reserved-member checks of the REAL `lzma_code()`, taken on its own on an
+    otherwise healthy handle (20 cases), answers as the model does. -/
+theorem gate_table_bridge : Gen.C11.gateTable = modelGateTable := by decide
+
 /-- Every public init function installs exactly the documented set of supported actions. -/
 theorem supported_per_coder :
     Gen.C11.supported.all (fun nm => documentedSupported nm.1 == some nm.2) = true
